@@ -121,3 +121,6 @@ def entry_predicates_contract(w: World):
     check(e.is_irrelevant == (e.ignored == IgnoreReason.IRRELEVANT) and e.is_conflicted == (e.ignored == IgnoreReason.CONFLICT),
           "irrelevant / conflicted are exactly those reasons")
     check(e.is_trash == (e[0].oid is None and e[1].oid is None), "trash: no id on either side")
+    both_named_and_hashed = truthy(e[0].hash) and truthy(e[1].hash) and truthy(e[0].path) and truthy(e[1].path)
+    check(truthy(e.hash_conflict()) == (both_named_and_hashed and e[0].hash != e[0].sync_hash and e[1].hash != e[1].sync_hash),
+          "a content conflict: both sides named and hashed, and both differ from what was last synced")
